@@ -9,4 +9,4 @@ git -C $WT apply $P || { echo "patch does not apply"; exit 3; }
 LOG=$WT/_check_$PROP.log
 AVEL_REPO=$WT VERIF_CACHE=$WT/_verif_cache VERIF_REPLAYS=$WT/_replays VERIF_SCRATCH=$WT/_scratch python3 run.py --property $PROP --tier quick --no-evidence "$@" > $LOG 2>&1; rc=$?
 git -C $WT checkout -q -- .
-echo "exit=$rc"; grep -E "^VIOLATION|^KNOWN|^UNDECIDED|^EXTRACTION|quick:|failed:" $LOG | cut -c1-260 | head -12
+echo "exit=$rc" | tee -a $LOG; grep -E "quick:" $LOG | cut -c1-260; grep -E "^VIOLATION|^KNOWN|^UNDECIDED|^EXTRACTION|failed:" $LOG | cut -c1-260 | head -10
